@@ -7,7 +7,7 @@ Extraction "../ocaml/extracted.ml" mkArith upd
   species_order build_S build_Sd index_of derivative initialize_ok mkRx
   prior_eval check_prior log_prior
   compute_J compute_Zj stencil
-  apply_rules ssa_simulate dssa_simulate vssa_simulate normal_rv gamma_rv exponential_rv sample_discrete
+  apply_rules ssa_simulate dssa_simulate vssa_simulate dvssa_simulate normal_rv gamma_rv exponential_rv sample_discrete
   dispatch
   extract_frame cost
   translate mkEnv
